@@ -89,8 +89,54 @@ func c07Drive(c *mon.Child, key string, lx lexer.Lexer, names map[lexer.TokenTyp
 	return real
 }
 
+// c07Witnesses are the (rule map, inputs) pairs on which the panics repaired
+// in /repo were first seen; they run first in every batch-0 child.
+func c07Witnesses() []struct {
+	g      *lexgen.GMap
+	inputs []string
+} {
+	mk := func(states []string, rules map[string][]lexgen.GRule) *lexgen.GMap {
+		return &lexgen.GMap{States: states, Rules: rules}
+	}
+	return []struct {
+		g      *lexgen.GMap
+		inputs []string
+	}{
+		{mk([]string{"Root"}, map[string][]lexgen.GRule{"Root": {{Name: "B", Pattern: `-`, Action: "pop"}, {Name: "X", Pattern: `[a-z]`}}}), []string{"-x", "-", "x-", "x--x"}},
+		{mk([]string{"Root"}, map[string][]lexgen.GRule{"Root": {{Name: "A", Pattern: `a`}, {Action: "return"}}}), []string{"b", "ab", "aab"}},
+		{mk([]string{"Root", "S1"}, map[string][]lexgen.GRule{
+			"Root": {{Name: "P", Pattern: `(<)?\(([a-c]*)`, Action: "push", Target: "S1"}, {Name: "W", Pattern: `\s+`}},
+			"S1":   {{Name: "E", Pattern: `\2\)`, Action: "pop"}, {Name: "X", Pattern: `[^)]`}, {Action: "return"}}}), []string{"(ab", "<(ab", "(ab ab)", "(ab)) x"}},
+		{mk([]string{"Root", "S1"}, map[string][]lexgen.GRule{
+			"Root": {{Action: "include", Target: "S1"}, {Name: "Open", Pattern: `\(`, Action: "push", Target: "S1"}},
+			"S1":   {{Name: "Close", Pattern: `\)`, Action: "pop"}, {Name: "Id", Pattern: `[a-z]+`}, {Action: "return"}}}), []string{")", "a)", "(a))b", "(a))", "((a)"}},
+	}
+}
+
 func c07Child(c *mon.Child) {
-	nMaps := c.N(200, 600)
+	if c.Batch == 0 {
+		for wi, w := range c07Witnesses() {
+			def, err, panicked, _ := buildDef(w.g)
+			if panicked || err != nil {
+				c.Violation("", fmt.Sprintf("w%d", wi), fmt.Sprintf("witness definition is not accepted any more: %v | %s", err, w.g.String()), nil)
+				continue
+			}
+			for ii, in := range w.inputs {
+				key := fmt.Sprintf("w%d.i%d", wi, ii)
+				if !c.Want(key) {
+					continue
+				}
+				g, in := w.g, in
+				c.Begin(key, fmt.Sprintf("witness %s <- %q", g.String(), in))
+				c.Eval(1)
+				lx, _ := def.LexString("w", in)
+				c07Drive(c, key, lx, symNames(def), in, func() string { return "witness rules: " + g.String() + fmt.Sprintf(" | input: %q", in) }, func() interface{} { return map[string]interface{}{"rules": g, "input": in} })
+				c.Feature("witness_cases_of_repaired_panics")
+				c.End(key)
+			}
+		}
+	}
+	nMaps := c.N(200, 2500)
 	nInputs := c.N(100, 300)
 	for mi := 0; mi < nMaps; mi++ {
 		r := c.RNG("map", mi)
